@@ -84,6 +84,7 @@ def r2_one_to_one(cx):
     cm = cx.repo.module(CL)
     cc = cm.func("Cleaner.clean_content", "C10.R2")
     lines = params(cc)[1]
+    shape.ensure_line_loop(cc, lines)
     loops = [s for s in cc.body if isinstance(s, ast.For) and line_loop(s, lines)[0] is not None]
     if not loops:
         cx.unknown(cc, "no loop over the lines")
@@ -120,6 +121,7 @@ def r3_empty(cx):
     cm = cx.repo.module(CL)
     cc = cm.func("Cleaner.clean_content", "C10.R3")
     lines_p = params(cc)[1]
+    shape.ensure_line_loop(cc, lines_p)
     plist, _pd = shape.stage_list_name(cc)
     hf, hcalls, _pp, hok = shape.clean_line_helper(cm, cc, plist) if plist is not None else (None, [], None, False)
     res_ret = [r for r in walk_body(cc.body) if isinstance(r, ast.Return) and r.value is not None and U(r.value) in ("result", "result[::-1]", "list(reversed(result))")]
